@@ -78,11 +78,6 @@ def pushBool (b : Bool) (deferred : Bool) : OpM (St μ ι) Unit :=
 def pushBigInt (n : Nat) (deferred : Bool) : OpM (St μ ι) Unit :=
   pushBytes M (bigIntBytes n) deferred
 
-/-- Go `append(a, b...)` -/
-def appendItem (a : ι) (b : Bytes) : OpM (St μ ι) ι := fun s =>
-  let r := M.append s.mem a b
-  .ok r.2 { s with mem := r.1 }
-
 def top : OpM (St μ ι) ι := fun s =>
   match s.f.data with
   | [] => .err .dataStackUnderflow s
@@ -279,6 +274,8 @@ def opTuck : OpM (St μ ι) Unit := do
 
 /-! ### splice.go -/
 
+/-- CAT (after fix a6a6f5b7): the result is built in a fresh array of exactly
+    `len a + len b` bytes — `make([]byte, 0, len(a)+len(b))`, then two appends within capacity -/
 def opCat : OpM (St μ ι) Unit := do
   applyCost 4
   let b ← pop M true
@@ -286,9 +283,9 @@ def opCat : OpM (St μ ι) Unit := do
   let lens : Int := Int.ofNat (M.len a + M.len b)
   applyCost lens
   deferCost (-lens)
+  let ab ← readItem M a
   let bb ← readItem M b
-  let x ← appendItem M a bb
-  pushItem M x true
+  pushBytes M (ab ++ bb) true
 
 def opCatpushdata : OpM (St μ ι) Unit := do
   applyCost 4
@@ -297,9 +294,9 @@ def opCatpushdata : OpM (St μ ι) Unit := do
   let lens : Int := Int.ofNat (M.len a + M.len b)
   applyCost lens
   deferCost (-lens)
+  let ab ← readItem M a
   let bb ← readItem M b
-  let x ← appendItem M a (pushDataBytes bb)
-  pushItem M x true
+  pushBytes M (ab ++ pushDataBytes bb) true
 
 def opSubstr : OpM (St μ ι) Unit := do
   applyCost 4
